@@ -324,7 +324,7 @@ def _exhaustive(L, A, costs_list, size, loss=False, alt_bf=False):
                                 c = dict(base, ref=[refs[i] for i in keep], hyp=[hyps[i] for i in keep])
                                 for red in ("none", "sum", "mean"):
                                     k += 1
-                                    yield dict(c, V=A + (k % 2), reduction=red, ignore_index=(-2, -100)[k % 2], lseed=k, dtype="float64")
+                                    yield dict(c, V=A + (k % 2), reduction=red, ignore_index=(-2, -100, A + 4)[k % 3], lseed=k, dtype="float64")  # (a padding marker above the vocabulary as well: seeded change C03_E)
                             else:
                                 for excl in (False, True):
                                     if excl and H == 0:
@@ -349,7 +349,7 @@ def _random_case(rng, loss=False):
         for h in hyps:
             if not _has_counted(h, eos, inc):
                 h[0] = (eos + 1) % A
-        c.update(V=A + rng.randint(0, 2), reduction=rng.choice(["none", "sum", "mean"]), ignore_index=rng.choice([-2, -100, -1]),
+        c.update(V=A + rng.randint(0, 2), reduction=rng.choice(["none", "sum", "mean"]), ignore_index=rng.choice([-2, -100, -1, 1000]),
                  lseed=rng.randrange(10 ** 6), dtype=rng.choice(["float64", "float32"]))
     else:
         c.update(exclude_last=rng.random() < 0.5, padding=rng.choice([-100, -1, -3, A + 7]))
@@ -486,7 +486,7 @@ def run_bounded(ctx):
     if _wanted(ctx, "C03.loss.formula"):
         ctx.bounded("C03.loss.formula", check_loss, cases_loss(ctx),
                     bound=("EXHAUSTIVE: every (ref, hyp) in {0,1,2}^R x {0,1,2}^H, R,H<=%d, every hypothesis with a counted token, batches of <=%d; 3 eos modes x batch_first x reduction {none,sum,mean}; "
-                           "costs %s; V in {3,4}; ignore_index in {-2,-100}; one seeded float64 logit tensor (3*randn) per case" % ((3, 27, COSTS_QUICK[:2]) if q else (4, 81, COSTS_QUICK[:2])))
+                           "costs %s; V in {3,4}; ignore_index in {-2,-100, above the vocabulary}; one seeded float64 logit tensor (3*randn) per case" % ((3, 27, COSTS_QUICK[:2]) if q else (4, 81, COSTS_QUICK[:2])))
                     + ("" if q else "; + %d seeded random batches (as above, float32 and float64 logits, functional or module entry point)" % NRAND),
                     text="hard OCD loss = mean over the brute-force target set of -log_softmax(logits)[t] per prefix (0 where empty); sum; mean = per-sequence average over prefixes with targets, then batch mean",
                     nontrivial=_repeats, budget_s=None if q else 400, chunk=8, functions=["_string.hard_optimal_completion_distillation_loss", "_string.optimal_completion"])
